@@ -477,5 +477,6 @@ func TestVerif_C18(t *testing.T) {
 		// tree mode: every history, no merging
 		hbfs.Explore(c, c18Spec(evs, c.Pick(3, 4), true))
 		c18Set(c)
+		c18Batch(c)
 	})
 }
